@@ -114,6 +114,13 @@ CHECKS = {
              "classification computed in Coq must reproduce divergent/slow_conv and the raise decision of every run. PARTIAL: "
              "convergence and forward error are sampled (aligned imaging family, NIRCam file).",
         ref="5 C05", technique="Coq proof (invariant over iterations, adversarial oracle) + AST pins + trace correspondence"),
+    "C09": dict(
+        text="Theorem roundtrip over converters-as-field-tables: every field named by the specification survives write-then-read when "
+             "the write and read tables agree on an unshared key. The tables are REGENERATED each run from gwcs/converters/wcs.py by an "
+             "extractor that follows variable rebinding (which is how the dropped SpectralFrame reference_position was exposed and "
+             "repaired), and Coq computes the premise and instantiates the theorem for every converter class. Real ASDF round trips "
+             "over a zoo of frames/transforms/open modes compare fields, behaviour bit for bit, tree idempotence; deepcopy/pickle isolation.",
+        ref="5 C09", technique="Coq proof with premises computed on tables regenerated from source + real ASDF round-trip correspondence"),
 }
 
 NOT_YET = "check not built yet in this session (work in progress; see DESIGN.md section 10 build order)"
